@@ -26,6 +26,44 @@ class Engine(ExprMixin, CallMixin, StmtMixin, Core):
                 self.local_names.add(n.name)
             elif isinstance(n, ast.ExceptHandler) and n.name:
                 self.local_names.add(n.name)
+        # names visible as globals: module-level definitions and builtins (anything else is a NameError at run time)
+        import builtins
+        self.module_names = set(dir(builtins))
+        def top(stmts):
+            for n in stmts:
+                if isinstance(n, (ast.Import, ast.ImportFrom)):
+                    for a in n.names:
+                        self.module_names.add((a.asname or a.name).split(".")[0])
+                elif isinstance(n, (ast.FunctionDef, ast.ClassDef, ast.AsyncFunctionDef)):
+                    self.module_names.add(n.name)
+                elif isinstance(n, (ast.Assign, ast.AnnAssign, ast.AugAssign)):
+                    for tgt in (n.targets if isinstance(n, ast.Assign) else [n.target]):
+                        for x in ast.walk(tgt):
+                            if isinstance(x, ast.Name):
+                                self.module_names.add(x.id)
+                elif (isinstance(n, ast.Expr) and isinstance(n.value, ast.Call) and ast.unparse(n.value.func).endswith("lazy_import")
+                      and len(n.value.args) == 2 and isinstance(n.value.args[1], ast.Constant) and isinstance(n.value.args[1].value, str)):
+                    try:
+                        import textwrap
+                        top(ast.parse(textwrap.dedent(n.value.args[1].value)).body)
+                    except SyntaxError:
+                        pass
+                elif isinstance(n, (ast.If, ast.Try, ast.With, ast.For, ast.While)):
+                    for fld in ("body", "orelse", "finalbody"):
+                        top(getattr(n, fld, []) or [])
+                    for h in getattr(n, "handlers", []) or []:
+                        top(h.body)
+        top(self.tree.body)
+        # enclosing function scopes of nested targets
+        for n in ast.walk(self.tree):
+            if isinstance(n, (ast.FunctionDef, ast.Lambda)) and n is not f and any(ch is f for ch in ast.walk(n)):
+                for a in n.args.posonlyargs + n.args.args + n.args.kwonlyargs:
+                    self.module_names.add(a.arg)
+                for x in ast.walk(n):
+                    if isinstance(x, ast.Name) and isinstance(x.ctx, ast.Store):
+                        self.module_names.add(x.id)
+        self.module_names.update(self.spec.consts)
+        self.module_names.update(t.params)
         self.method_names = set()
         for c in self.spec.contracts:
             if isinstance(c.key, tuple):
@@ -128,6 +166,8 @@ class Engine(ExprMixin, CallMixin, StmtMixin, Core):
                 res = o.val if o.kind == "return" else S.NONEV()
                 if t.result is not None and res is not None:
                     c = self.coerce(res, t.result)
+                    if c is None and t.result == BOOL:
+                        c = S.truthy(res)      # declared Bool: only the truth value of the result is specified
                     if c is None:
                         raise EngineError("return value %s does not fit declared result %s" % (res.s, t.result))
                     res = c
